@@ -236,6 +236,41 @@ def _canon(x):
     return ("obj", repr(x))
 
 
+def _approx(a, b, depth=0):
+    """Structural equality with round-off tolerance for floating point buffers (used where only the memory layout of an argument
+    differs: reductions over strided memory may legitimately round differently)."""
+    import pandas as pd
+    import xarray as xr
+
+    if depth > 8:
+        return True
+    if isinstance(a, (pd.DataFrame,)):
+        return isinstance(b, pd.DataFrame) and list(a.columns) == list(b.columns) and all(_approx(a[c].values, b[c].values, depth + 1) for c in a.columns)
+    if isinstance(a, pd.Series):
+        return isinstance(b, pd.Series) and _approx(a.values, b.values, depth + 1)
+    if isinstance(a, xr.Dataset):
+        return (isinstance(b, xr.Dataset) and list(a.data_vars) == list(b.data_vars) and set(a.coords) == set(b.coords)
+                and all(_approx(a[k].values, b[k].values, depth + 1) and a[k].dims == b[k].dims for k in list(a.data_vars) + list(a.coords))
+                and {k: str(v) for k, v in a.attrs.items()} == {k: str(v) for k, v in b.attrs.items()})
+    if isinstance(a, xr.DataArray):
+        return isinstance(b, xr.DataArray) and a.name == b.name and a.dims == b.dims and _approx(a.values, b.values, depth + 1)
+    if isinstance(a, (list, tuple)):
+        return type(a) is type(b) and len(a) == len(b) and all(_approx(x, y, depth + 1) for x, y in zip(a, b))
+    if isinstance(a, dict):
+        return isinstance(b, dict) and a.keys() == b.keys() and all(_approx(a[k], b[k], depth + 1) for k in a)
+    if isinstance(a, np.ndarray) or isinstance(a, (np.generic, float)):
+        a_, b_ = np.asarray(a), np.asarray(b)
+        if a_.dtype == object or b_.dtype == object:
+            return a_.shape == b_.shape and all(_approx(x, y, depth + 1) for x, y in zip(a_.ravel(), b_.ravel()))
+        if a_.shape != b_.shape or a_.dtype != b_.dtype:
+            return False
+        if a_.dtype.kind == "f":
+            scale = float(np.nanmax(np.abs(a_))) if a_.size and np.isfinite(a_).any() else 1.0
+            return bool(np.allclose(a_, b_, rtol=1e-9, atol=1e-9 * max(scale, 1e-300), equal_nan=True))
+        return bool(np.array_equal(a_, b_))
+    return _canon(a) == _canon(b)
+
+
 def _scribble(x, depth=0):
     """Overwrite, in place, every writeable numpy buffer reachable from a returned value (what a caller may legitimately do with
     arrays it received).  A later call must not be affected (seed C08-r2_2: a memoised helper handing out its cached array)."""
@@ -612,6 +647,7 @@ def run(case, rec):
         if raised(base):
             return rec.check(False, "%s: valid template raised %r" % (case["name"], base))
         cb = _canon(base)
+        base2 = run_variant("base")   # an untouched copy of the base result for the tolerant comparisons below
         _scribble(base)     # the caller overwrites what it got back; nothing the library still holds may change
         again = run_variant("base")
         rec.check(not raised(again) and _canon(again) == cb, "%s: a second identical call returned a different result" % case["name"])
@@ -620,8 +656,11 @@ def run(case, rec):
                 r = run_variant(variant, k)
                 if raised(r):
                     rec.check(False, "%s: %s input %r raised %r although the writable contiguous one works" % (case["name"], variant, k, r))
+                elif variant == "readonly":
+                    rec.check(_canon(r) == cb, "%s: result changes when %r is passed as a read-only array" % (case["name"], k))
                 else:
-                    rec.check(_canon(r) == cb, "%s: result changes when %r is passed as a %s array" % (case["name"], k, variant))
+                    # another memory layout of the same values: equal up to round-off (that is C04's tolerance, not bitwise)
+                    rec.check(_approx(r, base2), "%s: result changes when %r is passed as a %s array" % (case["name"], k, variant))
         if slots_t:
             # the caller refills the SAME array objects with other values between two calls: the second call must see the new values
             # (seed C14-r2_1: a k-d tree cached on the identity of the coordinate arrays)
